@@ -601,6 +601,10 @@ def correspondence(ctx, bits):
         if o["class"] in ("hang", "unparseable", "driver-error"):
             ctx.dist("skipped_" + o["class"])
             continue
+        if o["class"] == "mlr_error" and "internal coding error" in (o.get("stderr") or ""):
+            # the tree stopped on one of its own internal checks (N2 in c14.findings.md: not understood well enough to model): skipped, counted
+            ctx.dist("skipped_impl_internal_coding_error")
+            continue
         if o["class"] == "panic":
             ctx.violation({"broken": "panic", "program": c["text"], "inputs": c["inputs"], "stderr": o["stderr"], "class": "panic"})
             continue
